@@ -144,6 +144,80 @@ VERSION_PROBES = [
 ]
 
 
+ENDINGS = ["elseif-open", "nested-open", "if-then-only", "if-else-both", "cond-all-return", "cond-one-return", "while-last", "for-last", "assert-last", "seq-empty", "elseif3-open",
+           "if-in-seq-open", "comment-open"]
+
+
+def ending_probe(job):
+    """A routine that ENDS in the given control-flow shape (all of whose branches return): either rejected with a PyTeal error or every path
+    of the emitted TEAL ends in return / retsub / err - nothing runs off the end or falls through into the next subroutine."""
+    ending, place, version = job
+    from vf.core import use_repo
+    use_repo()
+    import pyteal as pt
+    from spec import tealcheck
+    out = {"job": list(job), "problem": None, "accepted": False}
+    c1, c2, c3 = pt.Txn.fee() > pt.Int(1), pt.Txn.fee() > pt.Int(2), pt.Txn.fee() > pt.Int(3)
+
+    def shape(R):
+        if ending == "elseif-open":
+            return pt.If(c1).Then(R()).ElseIf(c2).Then(R())
+        if ending == "elseif3-open":
+            return pt.If(c1).Then(R()).ElseIf(c2).Then(R()).ElseIf(c3).Then(R())
+        if ending == "nested-open":
+            return pt.If(c1, R(), pt.If(c2, R()))
+        if ending == "if-then-only":
+            return pt.If(c1).Then(R())
+        if ending == "if-else-both":
+            return pt.If(c1).Then(R()).Else(R())
+        if ending == "cond-all-return":
+            return pt.Cond([c1, R()], [c2, R()])
+        if ending == "cond-one-return":
+            return pt.Cond([c1, R()], [c2, pt.Pop(pt.Int(1))])
+        if ending == "while-last":
+            return pt.While(c1).Do(pt.If(c2).Then(R()).Else(pt.Break()))
+        if ending == "for-last":
+            i = pt.ScratchVar(pt.TealType.uint64)
+            return pt.For(i.store(pt.Int(0)), i.load() < pt.Int(2), i.store(i.load() + pt.Int(1))).Do(pt.If(c2).Then(R()))
+        if ending == "assert-last":
+            return pt.Assert(c1)
+        if ending == "seq-empty":
+            return pt.Seq()
+        if ending == "if-in-seq-open":
+            return pt.Seq(pt.Pop(pt.Int(5)), pt.If(c1).Then(R()).ElseIf(c2).Then(R()))
+        if ending == "comment-open":
+            return pt.Comment("tail", pt.If(c1).Then(R()).ElseIf(c2).Then(R()))
+        raise ValueError(ending)
+    try:
+        if place == "main":
+            prog = pt.Seq(pt.Pop(pt.Int(7)), shape(lambda: pt.Return(pt.Int(1))))
+        else:
+            @pt.Subroutine(pt.TealType.none)
+            def guard():
+                return pt.Seq(pt.Pop(pt.Int(7)), shape(lambda: pt.Return()))
+
+            @pt.Subroutine(pt.TealType.none)
+            def wipe():
+                return pt.App.globalDel(pt.Bytes("owner"))
+            prog = pt.Seq(guard(), pt.If(c3).Then(wipe()), pt.Approve()) if place == "sub-then-other" else pt.Seq(pt.If(c3).Then(wipe()), guard(), pt.Approve())
+        teal = pt.compileTeal(prog, pt.Mode.Application, version=version)
+    except Exception as ex:
+        if type(ex).__name__ not in e2e.PYTEAL_ERRORS:
+            out["problem"] = f"crash {type(ex).__name__}: {str(ex)[:160]}"
+        return out
+    out["accepted"] = True
+    pr = tealcheck.validate(teal, version, "Application", stack=False)
+    if pr:
+        out["problem"] = f"illegal TEAL: {pr[:2]}"
+        out["teal"] = teal
+    return out
+
+
+def ending_jobs(tier):
+    versions = (4, 6, 10) if tier == "quick" else (4, 5, 6, 7, 8, 9, 10)
+    return [(e, p, v) for e in ENDINGS for p in ("main", "sub-then-other", "other-then-sub") for v in versions]
+
+
 def all_probes(tier):
     out = list(VERSION_PROBES)
     for name, tpl, v0, mode, da, db in IMM_TEMPLATES:
@@ -194,6 +268,15 @@ def run(report: Report, tier, seed):
     report.bounded.append(Bounded(function="immediate-range / version probes", contract="rejected with a PyTeal error or emitted legally",
                                   bound=f"{len(IMM_TEMPLATES)} constructs with numeric immediates x boundary values {IMM_VALUES} (and a run-time operand where accepted) x versions; {len(VERSION_PROBES)} version probes",
                                   cases=len(PROBES), distinct_nontrivial=sum(1 for _, p, _t in pr if p != "rejected"), failures=len(pbad)))
+    ej = ending_jobs(tier)
+    with ProcessPoolExecutor(max_workers=16) as ex:
+        er = list(ex.map(ending_probe, ej, chunksize=8))
+    ebad = [r for r in er if r["problem"]]
+    report.bounded.append(Bounded(function="routines ending in a given control-flow shape", contract="rejected with a PyTeal error, or no path of the emitted TEAL runs off the end / falls through into another routine",
+                                  bound=f"{len(ENDINGS)} ending shapes (open If/ElseIf chains of returns, Cond, loops, Assert, empty Seq, ...) x main routine / subroutine followed by or following another x versions",
+                                  cases=len(er), distinct_nontrivial=sum(1 for r in er if r["accepted"]), failures=len(ebad)))
+    for b in ebad[:2]:
+        report.violation(Violation(key=f"ending:{b['job'][0]}:{b['job'][1]}", what=f"routine ending {b['job']}: {b['problem']}"[:400], replay={"kind": "ending", "job": b["job"], "teal": b.get("teal")}, confirmed_native=True))
     report.extra["explanation"] = "E: Op/TxnField/GlobalField tables vs langspec; P: verifyOpsForVersion/Mode/ProgramVersion (pyvc); B: structural validation of generated programs and probes"
     def search(fn, obs):
         if "substring" in fn:
@@ -222,6 +305,10 @@ def replay(data):
         out = _probe(job)
         print(out[:2])
         return 1 if (out[1] not in ("rejected",) and out[1]) else 0
+    if r.get("kind") == "ending":
+        out = ending_probe(tuple(r["job"]))
+        print(out["problem"])
+        return 1 if out["problem"] else 0
     if r.get("kind") == "generated":
         out = _validate(r["spec"])
         print(out["problems"][:1])
